@@ -126,3 +126,727 @@ def regenerate(ctx):
     text = "\n".join(lines) + "\n"
     _STATE["gen_changed"] = ctx.gen("TorchRegistry", text)
     _STATE["known_exceptions"] = known
+
+
+# ----------------------------------------------------------------------------- real-code observers
+
+class _Arg:
+    """Sentinel standing for one supplied argument of a call."""
+    __slots__ = ("src",)
+
+    def __init__(self, src):
+        self.src = src          # ("pos", i) | ("kw", name)
+
+    def __repr__(self):
+        return f"<arg {self.src}>"
+
+
+def _mk_call(npos, kws):
+    return [_Arg(("pos", i)) for i in range(npos)], {k: _Arg(("kw", k)) for k in kws}
+
+
+def _src_of(v):
+    return v.src if isinstance(v, _Arg) else None
+
+
+def real_bind_scripted(op_signature, npos, kws):
+    """torch's _construct_named_inputs_and_attrs on a real OpSignature.
+    -> None if it raised, else ([source per parameter], [dropped keyword names])."""
+    from torch.onnx._internal.exporter import _building
+    args, kwargs = _mk_call(npos, kws)
+    try:
+        named_inputs, named_attrs = _building._construct_named_inputs_and_attrs(op_signature, args, kwargs)
+    except ValueError:
+        return None
+    srcs = []
+    used = set()
+    for p in op_signature.params:
+        v = named_inputs.get(p.name, named_attrs.get(p.name))
+        s = _src_of(v)
+        srcs.append(s)
+        if s is not None and s[0] == "kw":
+            used.add(s[1])
+    return srcs, [k for k in kws if k not in used]
+
+
+def real_bind_python(pyfunc, npos, kws):
+    """Python's own call binding (what TracedOnnxFunction.__call__ = func(*args, **kwargs) does)."""
+    args, kwargs = _mk_call(npos, kws)
+    try:
+        ba = inspect.signature(pyfunc).bind(*args, **kwargs)
+    except TypeError:
+        return None
+    srcs = [_src_of(ba.arguments.get(name)) for name in inspect.signature(pyfunc).parameters]
+    return srcs, []
+
+
+def _c_src(s):
+    if s is None:
+        return "SDefault"
+    return f"SPos {s[1]}" if s[0] == "pos" else f"SKw {cstr(s[1])}"
+
+
+def _c_obs(o):
+    if o is None:
+        return "None"
+    return f"(Some ({clist(o[0], _c_src)}, {clist(o[1], cstr)}))"
+
+
+def _c_call(npos, kws):
+    return f"(mkC {npos} {clist(kws, cstr)})"
+
+
+def _eval_disagreeing(ctx, stream, cases, meta, requires=("OV.Registry.Binding", "OV.Gen.TorchRegistry")):
+    """cases: Coq terms (fn_sig, call, observed); prints indices where the model disagrees."""
+    bad_all = []
+    shard = 1500
+    bodies = []
+    for k in range(0, len(cases), shard):
+        part = cases[k:k + shard]
+        bodies.append("Open Scope string_scope.\n"
+                      f"Definition cases : list (fn_sig * call * option (list source * list string)) := {clist(part)}.\n"
+                      "Eval vm_compute in (disagreeing (fun x => match x with (f, c, o) => outcome_agrees f c o end) 0 cases).")
+    # (ctx.coq_eval_shards cannot be used: it rewrites '-' in the scratch path)
+    from concurrent.futures import ThreadPoolExecutor
+    tag = stream.replace(":", "_").replace("-", "_")
+    with ThreadPoolExecutor(max_workers=4) as ex:
+        results = list(ex.map(lambda kb: ctx.coq_eval(list(requires), kb[1], name=f"{tag}_{kb[0]}"), enumerate(bodies)))
+    for k, (ok, vals, raw) in enumerate(results):
+        if not ok or not vals:
+            ctx.tie_broken("correspondence", f"{stream}:model-evaluation", raw[-800:])
+            return None
+        bad_all += [k * shard + i for i in common.parse_nat_list(vals[0])]
+    for i in bad_all[:10]:
+        ctx.tie_broken("correspondence", stream, f"model and implementation bind differently: {meta[i]}")
+    return bad_all
+
+
+# ----------------------------------------------------------------------------- call shapes
+
+def _shapes_for(schema, rng, tier):
+    """Conforming call shapes (all admissible prefixes x some keyword subsets) and a few non-conforming ones."""
+    pos = [a for a in schema if not a["kwonly"]]
+    kw = [a for a in schema if a["kwonly"]]
+    need = max([i + 1 for i, a in enumerate(pos) if not a["default"]] + [0])
+    req_kw = [a["name"] for a in kw if not a["default"]]
+    opt_kw = [a["name"] for a in kw if a["default"]]
+    shapes = []
+    for n in range(need, len(pos) + 1):
+        shapes.append((n, list(req_kw), True))
+        if opt_kw:
+            shapes.append((n, req_kw + opt_kw, True))
+            k = rng.randint(1, len(opt_kw))
+            shapes.append((n, req_kw + sorted(rng.sample(opt_kw, k)), True))
+    if tier == "thorough":
+        for name in opt_kw:
+            shapes.append((len(pos), req_kw + [name], True))
+            shapes.append((need, req_kw + [name], True))
+    # near misses: one positional too few / too many, a keyword the schema does not have,
+    # a positional argument also given by keyword
+    if need > 0:
+        shapes.append((need - 1, list(req_kw), False))
+    shapes.append((len(pos) + 1, list(req_kw), False))
+    shapes.append((len(pos), req_kw + ["not_a_schema_argument"], False))
+    if pos:
+        shapes.append((len(pos), req_kw + [pos[rng.randrange(len(pos))]["name"]], False))
+    return shapes
+
+
+# ----------------------------------------------------------------------------- the check
+
+def _diagnose(ctx, n_entries):
+    """Ask the Coq model which entries do not bind and why: [(entry index, argument, reason, npos, kws)]."""
+    body = (
+        "Open Scope string_scope.\n"
+        "Definition code (w : why) : nat := match w with WTensorToAttr => 0 | WNotAccepted => 1 | WRequiredUnbound => 2 "
+        "| WDroppedPositional => 3 | WTooManyPositional => 4 | WDroppedKeyword => 5 | WUnexpectedKeyword => 6 end.\n"
+        "Eval vm_compute in (flat_map (fun ie => match ie with (i, e) => if entry_ok e then [] else "
+        "match e_schema e with None => [(i, \"\", 99, 0, @nil string)] "
+        "| Some s => map (fun d => match d with (a, w, c) => (i, a, code w, c_npos c, c_kws c) end) (diagnose s (e_sig e)) end end) "
+        "(combine (seq 0 (List.length all)) all)).\n"
+        "Eval vm_compute in (map fst (filter (fun ie => negb (entry_ok (snd ie))) (combine (seq 0 (List.length all)) all))).\n"
+        "Eval vm_compute in (map fst (filter (fun ie => negb (name_ok (e_name (snd ie)))) (combine (seq 0 (List.length all)) all))).\n"
+        "Eval vm_compute in (List.length all).")
+    ok, vals, raw = ctx.coq_eval(["OV.Registry.Binding", "OV.Gen.TorchRegistry"], body)
+    if not ok or len(vals) != 4:
+        ctx.tie_broken("correspondence", "diagnose:model-evaluation", raw[-1500:])
+        return None
+    import ast
+    txt = vals[0].replace(";", ",")
+    items = ast.literal_eval(txt) if txt.strip() not in ("[]", "nil") else []
+    codes = ["WTensorToAttr", "WNotAccepted", "WRequiredUnbound", "WDroppedPositional", "WTooManyPositional",
+             "WDroppedKeyword", "WUnexpectedKeyword"]
+    diag = [(i, a, "undefined" if w == 99 else codes[w], n, list(k)) for (i, a, w, n, k) in items]
+    failing = common.parse_nat_list(vals[1])
+    badnames = common.parse_nat_list(vals[2])
+    if int(vals[3]) != n_entries:
+        ctx.tie_broken("translator", "TorchRegistry", f"Coq sees {vals[3]} entries, the translator wrote {n_entries}")
+    # an entry that fails must come with at least one reason (diagnose mirrors binds_ok)
+    for i in failing:
+        if not any(d[0] == i for d in diag):
+            ctx.tie_broken("correspondence", "diagnose", f"entry {i} fails binds_ok but diagnose names no argument")
+    return diag, failing, badnames
+
+
+def _replay_failure(e, arg, why, npos, kws):
+    """Direct oracle: put the witness call to the real function the way the exporter does and see whether
+    the property's clause really fails.  -> (confirmed, observation text)"""
+    sig = e["fn"].op_signature
+    params = {p.name: p for p in sig.params}
+    import onnx_ir as ir
+    if e["traced"]:
+        obs = real_bind_python(_pyfunc(e), npos, kws)
+        if obs is None and why in ("WTensorToAttr", "WNotAccepted"):
+            # another defect of the same entry makes the Python call raise; locate the parameter the argument
+            # reaches with the positional/keyword rule alone (excess arguments ignored)
+            obs = real_bind_scripted(sig, npos, kws)
+    else:
+        obs = real_bind_scripted(sig, npos, kws)
+    names = [p.name for p in sig.params]
+    pos = [a for a in e["schema"] if not a["kwonly"]]
+    if why in ("WRequiredUnbound", "WTooManyPositional", "WUnexpectedKeyword"):
+        return obs is None, ("raises" if obs is None else f"binds {list(zip(names, obs[0]))}")
+    if obs is None:
+        return False, "raises (expected a binding)"
+    srcs, dk = obs
+    if why == "WDroppedKeyword":
+        return arg in dk, f"dropped keywords {dk}"
+    if why == "WDroppedPositional":
+        idx = [i for i, a in enumerate(pos) if a["name"] == arg]
+        reached = any(s == ("pos", idx[0]) for s in srcs) if idx else True
+        return (not reached), f"positional #{idx[0] if idx else '?'} reaches no parameter" if not reached else "reaches a parameter"
+    # WTensorToAttr / WNotAccepted: the argument lands on an attribute parameter of an unsuitable type
+    tgt = None
+    for name, s in zip(names, srcs):
+        if s is None:
+            continue
+        a = pos[s[1]] if s[0] == "pos" and s[1] < len(pos) else next((x for x in e["schema"] if x["kwonly"] and x["name"] == s[1]), None)
+        if a is not None and a["name"] == arg:
+            tgt = name
+    if tgt is None:
+        return False, f"argument {arg} reaches no parameter"
+    p = params[tgt]
+    is_attr = isinstance(p, ir.schemas.AttributeParameter)
+    return is_attr, f"argument {arg} reaches parameter {tgt} ({'attribute ' + p.type.name if is_attr else 'input'})"
+
+
+def _pyfunc(e):
+    from harness import c16_extract as X
+    return X.python_function(e["fn"])
+
+
+def _check_registry_entries(ctx, entries):
+    """binds_ok over the regenerated registry, evaluated by the Coq model; every failing (entry, argument)
+    is replayed on the real code and reported as a concrete input."""
+    res = _diagnose(ctx, len(entries))
+    if res is None:
+        return
+    diag, failing, badnames = res
+    for i in badnames:
+        e = entries[i]
+        ctx.violation(f"C16|{e['qname']}|{'complex' if e['complex'] else 'real'}|-|malformed-name",
+                      f"registered name {e['qname']!r} is not of the form namespace::name[.overload] / ends in .default",
+                      {"qualified_name": e["qname"], "function": e["fname"]})
+    n_confirmed = 0
+    for (i, arg, why, npos, kws) in diag:
+        e = entries[i]
+        cx = e["complex"]
+        if why == "undefined":
+            # the lookup itself is the observation (harness/c16_extract.resolve_overload on the installed torch)
+            ctx.violation(_key(e["qname"], cx, "-", "undefined-operator"),
+                          f"{e['qname']} is registered ({e['fname']}) but the installed PyTorch defines no such operator overload: {e['target']}",
+                          {"qualified_name": e["qname"], "function": e["fname"], "complex": cx, "lookup": str(e["target"])})
+            n_confirmed += 1
+            continue
+        confirmed, seen = _replay_failure(e, arg, why, npos, kws)
+        call = {"n_positional": npos, "keywords": kws}
+        what = (f"{e['qname']} ({'complex ' if cx else ''}{e['fname']}, {'trace-only' if e['traced'] else 'scripted'}): "
+                f"schema argument/parameter '{arg}' {WHY[why]} on call shape {call}; schema {e['schema_str']}; "
+                f"parameters {[(p['name'], p['kind'], 'required' if p['required'] else 'optional') for p in e['params']]}; real binding: {seen}")
+        if confirmed:
+            n_confirmed += 1
+            ctx.violation(_key(e["qname"], cx, arg, WHY[why]), what,
+                          {"qualified_name": e["qname"], "function": e["fname"], "complex": cx, "argument": arg, "reason": WHY[why],
+                           "call_shape": call, "schema": e["schema_str"], "parameters": e["params"], "observed": seen})
+        else:
+            ctx.tie_broken("correspondence", "diagnose-vs-real",
+                           f"model says {e['qname']}:{arg} {WHY[why]} on {call}, the real binding shows: {seen}")
+    # the theorem is stated modulo the entries named by known findings: an excepted entry that binds is stale bookkeeping, not a failure
+    failing_keys = {(entries[i]["qname"], entries[i]["complex"]) for i in failing}
+    stale = [k for k in _STATE.get("known_exceptions", []) if k not in failing_keys]
+    ctx.cover(registry_entries=len(entries), entries_failing_binds_ok=len(failing), failing_arguments=len(diag),
+              failing_confirmed_on_real_code=n_confirmed, excepted_entries=len(_STATE.get("known_exceptions", [])),
+              excepted_but_binding_now=[f"{q}{'|complex' if c else ''}" for q, c in stale])
+    ctx.obligation("every entry failing binds_ok is diagnosed and its witness call replayed on the real function",
+                   n_confirmed == len(diag), f"{n_confirmed}/{len(diag)} confirmed")
+    for e in entries:
+        if "schema" in e:
+            pos = [a for a in e["schema"] if not a["kwonly"]]
+            ctx.case(("entry", e["status"], e["traced"], len(pos), len(e["schema"]) - len(pos), len(e["params"]),
+                      tuple(sorted({p["kind"] for p in e["params"]}))))
+        else:
+            ctx.case(("entry", e["status"]))
+
+
+def _check_bind_correspondence(ctx, entries):
+    """Model `bind` vs the real binding code, on every entry of the registry and generated call shapes."""
+    from harness import c16_extract as X
+    rng = ctx.rng
+    cases, meta = [], []
+    n_conf = n_non = n_err = 0
+    for i, e in enumerate(entries):
+        if "schema" not in e:
+            continue
+        sig = e["fn"].op_signature
+        pyf = X.python_function(e["fn"])
+        shapes = _shapes_for(e["schema"], rng, ctx.tier)
+        if ctx.tier == "quick" and len(shapes) > 8:
+            keep = shapes[-4:]
+            shapes = rng.sample(shapes[:-4], 4) + keep
+        for (npos, kws, conf) in shapes:
+            lenient = real_bind_scripted(sig, npos, kws)
+            strict = real_bind_python(pyf, npos, kws)
+            n_conf += conf
+            n_non += (not conf)
+            n_err += (lenient is None) + (strict is None)
+            cases.append(f"(mkF (f_params (e_sig e{i})) false, {_c_call(npos, kws)}, {_c_obs(lenient)})")
+            meta.append((e["qname"], "construct_named_inputs_and_attrs", npos, kws, lenient))
+            cases.append(f"(mkF (f_params (e_sig e{i})) true, {_c_call(npos, kws)}, {_c_obs(strict)})")
+            meta.append((e["qname"], "python-call", npos, kws, strict))
+            ctx.case(("bind", e["traced"], "conforming" if conf else "near-miss", min(npos, 4), min(len(kws), 3),
+                      lenient is None, strict is None))
+    bad = _eval_disagreeing(ctx, "bind:registry", cases, meta)
+    if bad is not None:
+        ctx.obligation("correspondence: Gallina bind = torch _construct_named_inputs_and_attrs / Python call binding on registry entries",
+                       not bad, f"{len(bad)} disagreements of {len(cases)}")
+    ctx.cover(bind_cases_registry=len(cases), bind_conforming_shapes=n_conf, bind_near_miss_shapes=n_non, bind_real_errors=n_err)
+    if cases:
+        ctx.sample({"stream": "bind:registry", "case": meta[len(meta) // 3]})
+
+    # synthetic signatures: parameter orders / name collisions the registry does not contain
+    import onnx_ir as ir
+    pool = ["self", "other", "dim", "keepdim", "dtype", "alpha", "device", "layout"]
+    n_syn = 300 if ctx.tier == "quick" else 3000
+    cases, meta = [], []
+    for _ in range(n_syn):
+        m = rng.randint(0, 5)
+        names = rng.sample(pool, m)
+        params, cparams, pyparams = [], [], []
+        seen_default = False
+        py_valid = True
+        for nm in names:
+            is_input = rng.random() < 0.5
+            required = rng.random() < 0.5
+            if seen_default and required:
+                py_valid = False
+            seen_default = seen_default or not required
+            if is_input:
+                kw = {} if required else {"default": None}
+                params.append(ir.schemas.Parameter(name=nm, type_constraint=ir.schemas.TypeConstraintParam.any_value("T_" + nm),
+                                                   required=required, variadic=False, homogeneous=True, **kw))
+                cparams.append({"name": nm, "kind": "PInput", "required": required})
+            else:
+                default = None if required else ir.Attr(nm, ir.AttributeType.INT, 0)
+                params.append(ir.schemas.AttributeParameter(name=nm, type=ir.AttributeType.INT, required=required, default=default))
+                cparams.append({"name": nm, "kind": "AInt", "required": required})
+            pyparams.append(nm if required else f"{nm}=None")
+        sig = ir.schemas.OpSignature(domain="test", name="f", overload="", params=params, outputs=[])
+        npos = rng.randint(0, m + 1)
+        kws = sorted(rng.sample(pool + ["extra"], rng.randint(0, 3)))
+        cf = "mkF " + clist(cparams, lambda p: "mkP %s %s %s" % (cstr(p["name"]), "PInput" if p["kind"] == "PInput" else "(PAttr AInt)", cbool(p["required"])))
+        lenient = real_bind_scripted(sig, npos, kws)
+        cases.append(f"({cf} false, {_c_call(npos, kws)}, {_c_obs(lenient)})")
+        meta.append(("synthetic", [(p["name"], p["kind"], p["required"]) for p in cparams], npos, kws, lenient))
+        ctx.case(("bind-synthetic", "lenient", m, min(npos, m + 1), len(kws), lenient is None))
+        if py_valid:
+            ns = {}
+            exec(f"def f({', '.join(pyparams)}): pass", ns)  # noqa: S102 - fixed grammar, names from a fixed pool
+            strict = real_bind_python(ns["f"], npos, kws)
+            cases.append(f"({cf} true, {_c_call(npos, kws)}, {_c_obs(strict)})")
+            meta.append(("synthetic-python", [(p["name"], p["kind"], p["required"]) for p in cparams], npos, kws, strict))
+            ctx.case(("bind-synthetic", "strict", m, min(npos, m + 1), len(kws), strict is None))
+    bad = _eval_disagreeing(ctx, "bind:synthetic", cases, meta, requires=("OV.Registry.Binding",))
+    if bad is not None:
+        ctx.obligation("correspondence: Gallina bind = real binding code on synthetic signatures", not bad,
+                       f"{len(bad)} disagreements of {len(cases)}")
+    ctx.cover(bind_cases_synthetic=len(cases))
+
+
+_BASES = ["BTensor", "BScalar", "BInt", "BSymInt", "BBool", "BFloat", "BStr", "BScalarType", "BLayout", "BDevice",
+          "BMemoryFormat", "BGenerator", "BPyObj"]
+_ATTRS = ["INT", "FLOAT", "STRING", "INTS", "FLOATS", "STRINGS", "TENSOR", "TENSORS", "GRAPH", "GRAPHS"]
+
+
+def _check_accept_table(ctx):
+    """`attr_accepts` against the real conversion chain (_convert_fx_arg_to_onnx_arg ->
+    _construct_named_inputs_and_attrs -> ir.convenience.convert_attributes) on representative values:
+    an attribute parameter of type t accepts a schema type iff some value of that type arrives as an attribute of type t."""
+    import onnx_ir as ir
+    import torch
+    from torch.onnx._internal.exporter import _building, _core
+    from harness import c16_extract as X
+
+    def conv(v):
+        return _core._convert_fx_arg_to_onnx_arg(v, {}, {})
+
+    class _Opaque:
+        pass
+    scalar = {"BTensor": [ir.Value(name="t")], "BScalar": [2, 2.5, True], "BInt": [3], "BSymInt": [3], "BBool": [True], "BFloat": [2.5],
+              "BStr": ["a"], "BScalarType": [torch.float32], "BLayout": [torch.strided], "BDevice": [torch.device("cpu")],
+              "BMemoryFormat": [torch.contiguous_format], "BGenerator": [torch.Generator()], "BPyObj": [_Opaque()]}
+    lists = {"BTensor": [[ir.Value(name="t")]], "BScalar": [[1, 2], [1.5, 2.5]], "BInt": [[1, 2]], "BSymInt": [[1, 2]],
+             "BBool": [[True, False]], "BFloat": [[1.5, 2.5]], "BStr": [["a", "b"]]}
+    cells, obs = [], []
+    for b in _BASES:
+        for is_list in (False, True):
+            vals = (lists if is_list else scalar).get(b, [])
+            for t in _ATTRS:
+                at = getattr(ir.AttributeType, t)
+                sig = ir.schemas.OpSignature(domain="t", name="f", overload="", outputs=[],
+                                             params=[ir.schemas.AttributeParameter(name="x", type=at, required=True, default=None)])
+                ok = False
+                for v in vals:
+                    try:
+                        _ins, attrs = _building._construct_named_inputs_and_attrs(sig, [v if b == "BTensor" else conv(v)], {})
+                        res = ir.convenience.convert_attributes(attrs)
+                        ok = ok or (len(res) == 1 and res[0].type == at)
+                    except Exception:
+                        pass
+                cells.append((b, is_list, t))
+                obs.append(ok)
+                ctx.case(("accept", b, is_list, t, ok))
+    terms = [f"(mkA \"x\" {b} {cbool(l)} false false false, {X.ATTR_TYPES[t]}, {cbool(o)})" for (b, l, t), o in zip(cells, obs)]
+    body = ("Open Scope string_scope.\n"
+            f"Definition cells : list (sarg * attr_ty * bool) := {clist(terms)}.\n"
+            "Eval vm_compute in (disagreeing (fun x => match x with (a, t, o) => Bool.eqb (negb (is_tensor a) && attr_accepts a t) o end) 0 cells).")
+    ok, vals, raw = ctx.coq_eval(["OV.Registry.Binding"], body)
+    if not ok or not vals:
+        ctx.tie_broken("correspondence", "accept-table:model-evaluation", raw[-800:])
+        return
+    bad = common.parse_nat_list(vals[0])
+    for i in bad:
+        ctx.tie_broken("correspondence", "accept-table", f"schema type {cells[i][0]}{'[]' if cells[i][1] else ''} -> attribute {cells[i][2]}: "
+                                                          f"real exporter {'accepts' if obs[i] else 'does not accept'}, model differs")
+    ctx.obligation("correspondence: attr_accepts = what the real conversion chain turns into an attribute of the declared type", not bad)
+    ctx.cover(accept_cells=len(cells), accept_true=sum(obs))
+
+
+def _check_signature_sources(ctx, entries):
+    """The parameter list used by the model (function.op_signature, onnxscript/ir/_schemas.py) against the
+    signature the installed exporter derives itself (torch ... _schemas.op_signature_from_function)."""
+    import onnx_ir as ir
+    from onnxscript import values
+    from torch.onnx._internal.exporter import _schemas as torch_schemas
+    seen = set()
+    n = bad = 0
+    for e in entries:
+        fn = e["fn"]
+        if id(fn) in seen:
+            continue
+        seen.add(id(fn))
+        try:
+            if isinstance(fn, values.OnnxFunction):
+                ts = torch_schemas.op_signature_from_function(fn, fn.function_ir.domain, fn.name, since_version=fn.opset.version)
+            else:
+                ts = torch_schemas.op_signature_from_function(fn, "__traced", fn.__name__)
+        except Exception as ex:
+            ctx.tie_broken("correspondence", "op_signature", f"{e['fname']}: torch cannot derive a signature: {ex!r}")
+            continue
+
+        def shape(sig):
+            return [(p.name, "in" if isinstance(p, ir.schemas.Parameter) else p.type.name, bool(p.required)) for p in sig.params]
+        n += 1
+        if shape(ts) != shape(fn.op_signature):
+            bad += 1
+            ctx.tie_broken("correspondence", "op_signature",
+                           f"{e['fname']}: onnxscript op_signature {shape(fn.op_signature)} differs from the exporter's {shape(ts)}")
+    ctx.obligation("function.op_signature agrees with the signature the installed exporter derives (name, input/attribute type, required)",
+                   bad == 0, f"{bad} of {n} functions differ")
+    ctx.cover(signatures_compared=n)
+
+
+def _rand_name(rng):
+    word = _string.ascii_letters + _string.digits + "_"
+    def w(lo=1, hi=6):
+        return "".join(rng.choice(word) for _ in range(rng.randint(lo, hi)))
+    kind = rng.randrange(12)
+    if kind == 0:
+        return f"{w()}::{w()}"
+    if kind == 1:
+        return f"{w()}::{w()}.{w()}"
+    if kind == 2:
+        return f"{w()}::{w()}.default"
+    if kind == 3:
+        return f"{w()}::{w()}.{w()}.default"
+    if kind == 4:
+        return f"{w()}::{w()}."
+    if kind == 5:
+        return f"{w()}:{w()}"
+    if kind == 6:
+        return f"::{w()}"
+    if kind == 7:
+        return f"{w()}::{w()}::{w()}"
+    if kind == 8:
+        return f"{w()}::{w()}.{w()}.{w()}_{w()}"
+    if kind == 9:
+        return f"{w()}::{w()}{rng.choice('-+ /*()[]')}{w()}"
+    if kind == 10:
+        return f"{w()}::.{w()}"
+    return "".join(rng.choice(word + ":.:.") for _ in range(rng.randint(0, 12)))
+
+
+def _check_names(ctx, entries):
+    from onnxscript.function_libs.torch_lib import registration
+    rng = ctx.rng
+    names = sorted({e["qname"] for e in entries})
+    extra = ["aten::relu.default", "aten::add.Tensor", "aten::add.", "aten::add..Tensor", "aten::a.default.b", "aten::default",
+             "aten::x.defaultx", ".default", "a::b.default", "a::b.c.default", "", "::", "a::", "::b", "a::b", "a::b.", "a::b.c", "a b::c",
+             "a::b c", "a::b.c d", "aten::add.Tensor ", " aten::add", "a:::b", "a::b:c"]
+    n = 400 if ctx.tier == "quick" else 4000
+    strings = names + extra + [_rand_name(rng) for _ in range(n)]
+    obs = []
+    for s in strings:
+        try:
+            registration._check_and_normalize_names(s)
+            obs.append(True)
+        except ValueError:
+            obs.append(False)
+        ctx.case(("name", obs[-1], "::" in s, s.endswith(".default"), min(s.count("."), 3)))
+    terms = [f"({cstr(s)}, {cbool(o)})" for s, o in zip(strings, obs)]
+    body = ("Open Scope string_scope.\n"
+            f"Definition cases : list (string * bool) := {clist(terms)}.\n"
+            "Eval vm_compute in (disagreeing (fun x => Bool.eqb (name_ok (fst x)) (snd x)) 0 cases).")
+    ok, vals, raw = ctx.coq_eval(["OV.Registry.Binding"], body)
+    if not ok or not vals:
+        ctx.tie_broken("correspondence", "names:model-evaluation", raw[-800:])
+        return
+    bad = common.parse_nat_list(vals[0])
+    for i in bad[:10]:
+        s = strings[i]
+        # direct oracle on the disagreeing string: a name the real check lets through although the property forbids it
+        if obs[i] and (s.endswith(".default") or not _text_form_ok(s)):
+            ctx.violation("C16|name-check|accepts-malformed", f"_check_and_normalize_names accepts {s!r}",
+                          {"name": s, "accepted_by_implementation": True})
+        else:
+            ctx.tie_broken("correspondence", "names", f"{s!r}: implementation {'accepts' if obs[i] else 'rejects'}, model differs")
+    ctx.obligation("correspondence: name_ok = _check_and_normalize_names (accept / ValueError)", not bad, f"{len(bad)} of {len(strings)}")
+    ctx.cover(name_cases=len(strings), names_accepted=sum(obs))
+
+
+def _text_form_ok(s):
+    """The form the property text asks for, spelled without the regex under test: ns::name[.overload], word characters."""
+    word = set(_string.ascii_letters + _string.digits + "_")
+    if s.count("::") != 1:
+        return False
+    ns, rest = s.split("::")
+    name, dot, ov = rest.partition(".")
+    if not ns or not name or not set(ns) <= word or not set(name) <= word:
+        return False
+    if dot and (not ov or not set(ov) <= word | {"."}):
+        return False
+    return True
+
+
+def _check_registry_model(ctx):
+    """`register` / `flatten` against the real Registry.register and get_torchlib_ops on generated registration sequences."""
+    import warnings
+
+    from onnxscript._framework_apis import torch_2_5
+    from onnxscript.function_libs.torch_lib import registration
+    rng = ctx.rng
+
+    class _IR:
+        domain = "test"
+
+    class _Fn:
+        def __init__(self, i):
+            self.i = i
+            self.name = f"fn{i}"
+            self.function_ir = _IR()
+    names = ["aten::a", "aten::a.b", "aten::c", "internal::x", "prims::a", "internal::y.z"]
+    n_seq = 60 if ctx.tier == "quick" else 600
+    terms, meta = [], []
+    for _ in range(n_seq):
+        reg = registration.Registry()
+        seq = []
+        for j in range(rng.randint(0, 9)):
+            nm = rng.choice(names)
+            cx = rng.random() < 0.4
+            fn = _Fn(j)
+            seq.append((j, nm, cx))
+            with warnings.catch_warnings():
+                warnings.simplefilter("ignore")
+                reg.register(fn, nm, complex=cx)
+        state = [(nm, [f.i for f in ov.overloads], [f.i for f in ov.complex]) for nm, ov in reg.items()]
+        saved = registration.default_registry
+        try:
+            registration.default_registry = reg
+            flat = [(m.qualified_name, m.function.i, bool(m.is_complex)) for m in torch_2_5.get_torchlib_ops()]
+        finally:
+            registration.default_registry = saved
+        dup = len({(q, c) for q, _f, c in flat}) != len(flat)
+        if dup:
+            ctx.violation("C16|registry|pair-resolves-to-several-functions",
+                          f"after registrations {seq} get_torchlib_ops returns several functions for one (name, complex) pair: {flat}",
+                          {"registrations": seq, "get_torchlib_ops": flat})
+        c_seq = clist([f"({j}, {cstr(nm)}, {cbool(cx)})" for j, nm, cx in seq])
+        c_state = clist([f"(mkO {cstr(nm)} {clist(map(str, r))} {clist(map(str, c))})" for nm, r, c in state])
+        c_flat = clist([f"({cstr(q)}, {i}, {cbool(c)})" for q, i, c in flat])
+        terms.append(f"({c_seq}, {c_state}, {c_flat})")
+        meta.append((seq, state, flat))
+        ctx.case(("registry", len(seq), len(state), len(flat), any(len(r) + len(c) > 1 for _n, r, c in state)))
+    body = ("Open Scope string_scope.\n"
+            "Definition ovl_eqb (a b : ovl nat) : bool := String.eqb (o_name a) (o_name b) && list_eqb Nat.eqb (o_real a) (o_real b) "
+            "&& list_eqb Nat.eqb (o_complex a) (o_complex b).\n"
+            "Definition flat_eqb (a b : string * nat * bool) : bool := match a, b with (n1, f1, c1), (n2, f2, c2) => "
+            "String.eqb n1 n2 && Nat.eqb f1 f2 && Bool.eqb c1 c2 end.\n"
+            f"Definition cases : list (list (nat * string * bool) * list (ovl nat) * list (string * nat * bool)) := {clist(terms)}.\n"
+            "Eval vm_compute in (disagreeing (fun x => match x with (regs, st, fl) => "
+            "list_eqb ovl_eqb (register_all regs) st && list_eqb flat_eqb (flatten (register_all regs)) fl end) 0 cases).")
+    ok, vals, raw = ctx.coq_eval(["OV.Registry.Binding"], body)
+    if not ok or not vals:
+        ctx.tie_broken("correspondence", "registry:model-evaluation", raw[-800:])
+        return
+    bad = common.parse_nat_list(vals[0])
+    for i in bad[:5]:
+        ctx.tie_broken("correspondence", "registry", f"registrations {meta[i][0]}: implementation state {meta[i][1]} / ops {meta[i][2]}, model differs")
+    ctx.obligation("correspondence: register_all / flatten = Registry.register / get_torchlib_ops on generated registration sequences", not bad)
+    ctx.cover(registry_sequences=n_seq)
+
+
+def _check_live_registry_shape(ctx, entries, counts):
+    """Unique resolution observed on the live registry itself."""
+    for (name, cx), n in sorted(counts.items()):
+        if n > 1:
+            ctx.violation(f"C16|{name}|{'complex' if cx else 'real'}|-|several-functions",
+                          f"{name} ({'complex' if cx else 'real'}) resolves to {n} functions", {"qualified_name": name, "complex": cx, "count": n})
+    keys = [(e["qname"], e["complex"]) for e in entries]
+    ctx.obligation("live registry: every (name, real/complex) pair holds exactly one function", len(set(keys)) == len(keys)
+                   and all(n <= 1 for n in counts.values()))
+
+
+def _check_function_protos(ctx, entries):
+    """onnx.checker.check_function on every scripted (non trace-only) torch_lib function's FunctionProto
+    (registered ones and the private helpers found in the ops modules)."""
+    import importlib
+    import pkgutil
+
+    import onnx
+    import onnx.checker
+    from onnxscript import values
+    from onnxscript.function_libs.torch_lib import ops as ops_pkg
+    fns = {}
+    for e in entries:
+        if not e["traced"]:
+            fns[id(e["fn"])] = (e["fname"], e["fn"], e["qname"])
+    for m in sorted(pkgutil.iter_modules(ops_pkg.__path__), key=lambda m: m.name):
+        mod = importlib.import_module(ops_pkg.__name__ + "." + m.name)
+        for k in sorted(vars(mod)):
+            v = vars(mod)[k]
+            if isinstance(v, values.OnnxFunction) and id(v) not in fns:
+                fns[id(v)] = (v.name, v, f"(unregistered) {mod.__name__}.{k}")
+    n_ok = 0
+    for name, fn, where in sorted(fns.values(), key=lambda t: (t[0], t[2])):
+        try:
+            fp = fn.to_function_proto()
+            cctx = onnx.checker.C.CheckerContext()
+            cctx.ir_version = onnx.IR_VERSION
+            cctx.opset_imports = {o.domain: o.version for o in fp.opset_import}
+            onnx.checker.check_function(fp, cctx)
+            n_ok += 1
+            ctx.case(("function-proto", len(fp.node) > 3, len(fp.attribute) + len(fp.attribute_proto) > 0, len(fp.input)))
+        except Exception as ex:  # checker rejection or failure to build the proto
+            ctx.violation(f"C16|{name}|function-proto|-|checker", f"FunctionProto of scripted function {name} ({where}) fails the ONNX checker: {str(ex)[:300]}",
+                          {"function": name, "registered_as": where, "error": str(ex)[:2000]})
+    ctx.obligation("onnx.checker.check_function passes on every scripted torch_lib function", n_ok == len(fns), f"{n_ok}/{len(fns)}")
+    ctx.cover(scripted_functions_checked=len(fns))
+
+
+def run(ctx):
+    ctx.assume("a call is described by its shape (number of positional arguments, set of keyword-only arguments supplied); FX nodes of the exporter "
+               "pass non-keyword-only schema arguments positionally, omit trailing arguments equal to their default, and pass keyword-only arguments by name")
+    ctx.assume("`accepts` for an attribute parameter is what the exporter's own conversion chain turns into an attribute of the declared type "
+               "(recomputed from the real functions on representative values); an input parameter accepts any tensor or Python constant")
+    ctx.assume("trace-only functions are called as plain Python functions (TracedOnnxFunction.__call__), scripted ones through "
+               "_construct_named_inputs_and_attrs of the installed torch; both are modelled and compared on every run")
+    ctx.assume("not modelled: values (None passed for an optional argument), variadic inputs and non positional-or-keyword parameters "
+               "(translator fails closed on them), the numerical meaning of a function (C08); names of positional parameters are not compared with the schema")
+    ctx.assume("names in the namespaces _operator / math denote Python builtins (the exporter resolves them with getattr(operator|math, name)): "
+               "checked for existence and positional arity only; torchvision:: operators are read from the installed torchvision package; "
+               "quantized_decomposed:: from torch.ao.quantization.fx._decomposed")
+    ctx.trust("translator harness/c16_extract.py + harness/c16.py: registry / op_signature / torch schema -> Gen/TorchRegistry.v (fail-closed on unknown types)")
+    ctx.trust("installed PyTorch: torch.ops schemas, torch.onnx._internal.exporter._building / _schemas / _core as the reference for binding and conversion")
+    if _STATE.get("broken"):
+        ctx.check_props()
+        return
+    entries, counts = _load()
+    ok = ctx.check_props()
+    _check_registry_entries(ctx, entries)
+    _check_live_registry_shape(ctx, entries, counts)
+    _check_bind_correspondence(ctx, entries)
+    _check_accept_table(ctx)
+    _check_signature_sources(ctx, entries)
+    _check_names(ctx, entries)
+    _check_registry_model(ctx)
+    _check_function_protos(ctx, entries)
+    statuses = {}
+    for e in entries:
+        statuses[e["status"]] = statuses.get(e["status"], 0) + 1
+    mism = sum(1 for e in entries if e["status"] == "aten"
+               for a, p in zip([a for a in e["schema"] if not a["kwonly"]], e["params"]) if a["name"] != p["name"])
+    ctx.cover(entry_status=statuses, traced_entries=sum(e["traced"] for e in entries), complex_entries=sum(e["complex"] for e in entries),
+              positional_name_mismatches_not_flagged=mism, gen_file_rewritten=bool(_STATE.get("gen_changed")),
+              generator="exhaustive over the live registry (every entry x admissible positional prefixes x keyword subsets + near misses); "
+                        "synthetic signatures/calls, names, registration sequences from the seeded PRNG")
+    ctx.sample({"entry": entries[len(entries) // 2]["qname"], "schema": entries[len(entries) // 2].get("schema_str"),
+                "parameters": entries[len(entries) // 2]["params"]})
+    if ctx.tier == "thorough" and ok:
+        ctx.coqchk(["Props.C16"])
+
+
+def replay(doc):
+    """./check C16 --replay <path>: put the recorded input to the real code again."""
+    r = doc.get("replay", {})
+    print(json.dumps({k: doc.get(k) for k in ("property", "key", "what")}, indent=1)[:3000])
+    if "name" in r:  # name check
+        from onnxscript.function_libs.torch_lib import registration
+        try:
+            registration._check_and_normalize_names(r["name"])
+            print(f"_check_and_normalize_names accepts {r['name']!r}")
+            return 1
+        except ValueError as ex:
+            print(f"rejected: {ex}")
+            return 0
+    if "registrations" in r:
+        import warnings
+
+        from onnxscript.function_libs.torch_lib import registration
+        reg = registration.Registry()
+        for j, nm, cx in r["registrations"]:
+            with warnings.catch_warnings():
+                warnings.simplefilter("ignore")
+                reg.register(f"fn{j}", nm, complex=cx)
+        state = {nm: (ov.overloads, ov.complex) for nm, ov in reg.items()}
+        print(state)
+        return 1 if any(len(a) > 1 or len(b) > 1 for a, b in state.values()) else 0
+    if "qualified_name" not in r:
+        print("nothing to replay for this record (broken proof / correspondence: re-run ./check C16)")
+        return 0
+    entries, _ = _load()
+    match = [e for e in entries if e["qname"] == r["qualified_name"] and e["complex"] == r.get("complex", False)]
+    if not match:
+        print(f"{r['qualified_name']} is no longer registered")
+        return 0
+    e = match[0]
+    if "lookup" in r:
+        print(f"lookup in the installed PyTorch: {e['status']} {e['target']}")
+        return 1 if e["status"] == "undefined" else 0
+    if "schema" not in e:
+        print(f"no schema: {e['status']}")
+        return 1
+    rev = {v: k for k, v in WHY.items()}
+    cs = r["call_shape"]
+    confirmed, seen = _replay_failure(e, r["argument"], rev[r["reason"]], cs["n_positional"], cs["keywords"])
+    print(f"schema     {e['schema_str']}\nparameters {e['params']}\ncall shape {cs}\nobserved   {seen}\n"
+          f"-> the failure {'is reproduced' if confirmed else 'is NOT reproduced'}")
+    return 1 if confirmed else 0
